@@ -15,13 +15,19 @@
 //! call had already assigned (a panicking `new` keeps the previous object, if any).
 //!
 //! Reply: `= <stepreply> | <stepreply> | …`, one per step:
-//!   <panicked 0|1> -                                     no object exists (the first `new` panicked)
-//!   <panicked 0|1> S <state> O <obs> D <draws> R <draws> T <twin>
+//!   <panicked 0|1> C <c> -                               no object exists (the first `new` panicked)
+//!   <panicked 0|1> C <c> S <state> O <obs> D <draws> R <draws> T <twin>
+//!     <c>     = for `set` / `upd`: does the *constructor* accept the parameter list the call would produce
+//!               (current parameters with the field replaced / the cast slice)?  `1` yes, `0` it panics,
+//!               `-` not applicable (`new`, no object, slice of the wrong length).  The property demands
+//!               that setters and bulk updates reject exactly what the constructor rejects — also for NaN.
 //!     <state> = every number of the `Debug` rendering of the object, in order: the parameters first,
 //!               then the parameters of the cached sub-sampler objects (the fields are private and there
 //!               are no getters; `Debug` is the public view of the whole record)
 //!     <obs>   = pdf/pmf at the three probes, mean, var (`X` for a call that panicked)
-//!     D       = `alea::set_seed(seed)` followed by 32 `sample()` calls (or `X` if sampling panicked)
+//!     D       = `alea::set_seed(seed)` followed by 32 `sample()` calls (`X` if sampling panicked; `N` = not
+//!               sampled because some number of the record is NaN: several rejection samplers never
+//!               terminate on NaN parameters)
 //!     R       = the same again, but unrelated distribution objects are created, mutated and sampled
 //!               before the seed is set, and created and mutated (not sampled) between the draws
 //!     <twin>  = `X` if `new(current parameters)` panics, otherwise `S <state> O <obs> D <draws>` of that
@@ -330,6 +336,36 @@ fn show_draws(xs: Option<Vec<f64>>) -> String {
     }
 }
 
+fn has_nan(d: &D) -> bool {
+    numbers(&debug(d)).iter().any(|a| matches!(a, A::F(x) if x.is_nan()))
+}
+
+fn cast_slice(kind: &str, ps: &[f64]) -> R<Option<Vec<A>>> {
+    let sg = sig(kind)?.as_bytes();
+    if ps.len() < sg.len() || (kind == "pareto" && ps.len() != 2) {
+        return Ok(None);
+    }
+    Ok(Some(
+        sg.iter()
+            .zip(ps)
+            .map(|(ty, x)| match ty {
+                b'f' => A::F(*x),
+                b'i' => A::I((*x as i64) as i128),
+                b'u' => A::I((*x as usize) as i128),
+                _ => A::I((*x as u64) as i128),
+            })
+            .collect(),
+    ))
+}
+
+fn ctor_accepts(kind: &str, cand: &[A]) -> &'static str {
+    if guard(|| construct(kind, cand).unwrap()).is_some() {
+        "1"
+    } else {
+        "0"
+    }
+}
+
 fn draws_plain(d: &D, seed: u64) -> Option<Vec<f64>> {
     guard(|| {
         alea::set_seed(seed);
@@ -368,15 +404,19 @@ fn draws_noisy(d: &D, seed: u64, salt: usize) -> Option<Vec<f64>> {
 
 fn observe(d: &D, kind: &str, probes: &[A], seed: u64, salt: usize) -> R<String> {
     let arity = sig(kind)?.len();
-    let mut s = format!("S {} O {} D {} R {}", show_state(d), show_obs(d, probes)?,
-        show_draws(draws_plain(d, seed)), show_draws(draws_noisy(d, seed, salt)));
+    let (dp, dn) = if has_nan(d) {
+        ("N".to_string(), "N".to_string())
+    } else {
+        (show_draws(draws_plain(d, seed)), show_draws(draws_noisy(d, seed, salt)))
+    };
+    let mut s = format!("S {} O {} D {} R {}", show_state(d), show_obs(d, probes)?, dp, dn);
     let params: Vec<A> = numbers(&debug(d))[..arity].to_vec();
     let twin = guard(|| construct(kind, &params).unwrap());
     match twin {
         None => s.push_str(" T X"),
         Some(tw) => {
-            s.push_str(&format!(" T S {} O {} D {}", show_state(&tw), show_obs(&tw, probes)?,
-                show_draws(draws_plain(&tw, seed))));
+            let dt = if has_nan(&tw) { "N".to_string() } else { show_draws(draws_plain(&tw, seed)) };
+            s.push_str(&format!(" T S {} O {} D {}", show_state(&tw), show_obs(&tw, probes)?, dt));
         }
     }
     Ok(s)
@@ -396,6 +436,7 @@ fn step(_: &mut (), t: &mut Toks) -> R<String> {
             let mut obj: Option<D> = None;
             let mut replies = Vec::new();
             for k in 0..nsteps {
+                let mut c = "-";
                 let panicked = match t.tok()? {
                     "new" => {
                         let mut args = Vec::new();
@@ -418,7 +459,12 @@ fn step(_: &mut (), t: &mut Toks) -> R<String> {
                         let a = parse_arg(t, sg[idx])?;
                         match obj.as_mut() {
                             None => false,
-                            Some(d) => guard(|| set(d, idx, a).unwrap()).is_none(),
+                            Some(d) => {
+                                let mut cand: Vec<A> = numbers(&debug(d))[..sg.len()].to_vec();
+                                cand[idx] = a;
+                                c = ctor_accepts(kind, &cand);
+                                guard(|| set(d, idx, a).unwrap()).is_none()
+                            }
                         }
                     }
                     "upd" => {
@@ -426,7 +472,12 @@ fn step(_: &mut (), t: &mut Toks) -> R<String> {
                         let ps = t.f64s(n)?;
                         match obj.as_mut() {
                             None => false,
-                            Some(d) => guard(|| update(d, &ps)).is_none(),
+                            Some(d) => {
+                                if let Some(cand) = cast_slice(kind, &ps)? {
+                                    c = ctor_accepts(kind, &cand);
+                                }
+                                guard(|| update(d, &ps)).is_none()
+                            }
                         }
                     }
                     _ => return Err(BadOp),
@@ -435,7 +486,7 @@ fn step(_: &mut (), t: &mut Toks) -> R<String> {
                     None => "-".to_string(),
                     Some(d) => observe(d, kind, &probes, seed, k)?,
                 };
-                replies.push(format!("{} {}", show_bool(panicked), body));
+                replies.push(format!("{} C {} {}", show_bool(panicked), c, body));
             }
             t.end()?;
             Ok(ok(replies.join(" | ")))
